@@ -567,3 +567,29 @@ fn c11_rc_pointer_fmt() {
     assert!(fmt_p(&plain.snapshot(&g)) == fmt_p(&dressed.snapshot(&g)) && fmt_p(&plain) == fmt_p(&dressed.snapshot(&g)), "C11.fmt.snapshot_pointer_formatting_ignores_tag_and_timestamp");
     core::mem::forget(plain); core::mem::forget(dressed);
 }}
+
+
+/// C19 for a referent whose PartialEq is NOT reflexive (a NaN-like value): `==` / `partial_cmp` of Rc
+/// and Snapshot must still be exactly those of Option<&T> - no pointer-identity shortcut.
+pub(crate) struct Fl { pub v: u8 }
+impl PartialEq for Fl { fn eq(&self, o: &Self) -> bool { self.v != 255 && o.v != 255 && self.v == o.v } }
+impl PartialOrd for Fl { fn partial_cmp(&self, o: &Self) -> Option<core::cmp::Ordering> { if self.v == 255 || o.v == 255 { None } else { self.v.partial_cmp(&o.v) } } }
+unsafe impl RcObject for Fl { fn pop_edges(&mut self, _out: &mut Vec<Rc<Self>>) {} }
+l2_harness! {
+fn c19_partial_eq_not_reflexive() {
+    let a = RcInner::alloc(Fl { v: kani::any() }, 5);
+    let b = RcInner::alloc(Fl { v: kani::any() }, 5);
+    OBJS = [a as usize, b as usize];
+    kani::assume(OBJS[0] & !PM == 0 && OBJS[1] & !PM == 0);
+    let g = guard();
+    let (wa, wb) = (any_word(), any_word());
+    let refer = |w: usize| -> Option<&Fl> { let x = addr_of(w); if x == 0 { None } else { Some((*(x as *const RcInner<Fl>)).data()) } };
+    let (oa, ob) = (refer(wa), refer(wb));
+    let (ra, rb): (Rc<Fl>, Rc<Fl>) = (Rc::from_raw(unword(wa)), Rc::from_raw(unword(wb)));
+    assert!((ra == rb) == (oa == ob) && (ra != rb) == (oa != ob), "C19.eq.agrees_with_referent_even_when_not_reflexive");
+    assert!(ra.partial_cmp(&rb) == oa.partial_cmp(&ob), "C19.partial_cmp.agrees_with_referent_even_when_not_reflexive");
+    let (sa, sb): (Snapshot<'_, Fl>, Snapshot<'_, Fl>) = (Snapshot::from_raw(unword(wa), &g), Snapshot::from_raw(unword(wb), &g));
+    assert!((sa == sb) == (oa == ob) && sa.partial_cmp(&sb) == oa.partial_cmp(&ob), "C19.snapshot_eq.agrees_with_referent_even_when_not_reflexive");
+    kani::cover!(wa == wb && addr_of(wa) != 0 && !(ra == rb), "cover.c19.same_pointer_not_equal");
+    core::mem::forget(ra); core::mem::forget(rb);
+}}
